@@ -66,29 +66,107 @@ pub fn run(args: &[&str]) -> Option<String> {
     // sequential reference: same history, no concurrency
     let mut expected: Vec<Vec<Option<String>>> = Vec::new();
     let mut cold = 0u128;
+    let mut ref_host = ide_cmd::fresh_host()?;
     {
-        let mut host = ide_cmd::fresh_host()?;
         let t0 = Instant::now();
-        expected.push(answers(&host.snapshot(), &queries));
+        expected.push(answers(&ref_host.snapshot(), &queries));
         cold = cold.max(t0.elapsed().as_micros());
         for v in &variants {
             let mut ch = Change::default();
             ch.change_file(FileId(file), v.as_str().into());
-            host.apply_change(ch);
-            expected.push(answers(&host.snapshot(), &queries));
+            ref_host.apply_change(ch);
+            expected.push(answers(&ref_host.snapshot(), &queries));
         }
     }
+    // the final rounds (one per pool thread) alternate between the last text with and without a trailing comment
+    let last_text = variants.last().cloned().unwrap_or_default();
+    let tail_texts = [format!("{last_text}\n// tail\n"), last_text.clone()];
+    let mut tail_expected: Vec<Vec<Option<String>>> = Vec::new();
+    for t in &tail_texts {
+        let mut ch = Change::default();
+        ch.change_file(FileId(file), t.as_str().into());
+        ref_host.apply_change(ch);
+        tail_expected.push(answers(&ref_host.snapshot(), &queries));
+    }
+    let tail_expected = Arc::new(tail_expected);
 
     let log: Arc<Mutex<Vec<String>>> = Arc::new(Mutex::new(Vec::new()));
     let expected = Arc::new(expected);
     let queries = Arc::new(queries);
     let mut host = ide_cmd::fresh_host()?;
     let mut rng = Rng(seed.wrapping_mul(0x9E3779B97F4A7C15) | 1);
+    // a pool of long-lived reader threads, as the server's blocking pool: what a cancelled query leaves
+    // behind on its thread (thread-locals, poisoned state) is met by the next snapshot served there
+    enum Job {
+        Read { r: usize, v: usize, snap: ide::Analysis, trng: u64 },
+        Final { v: usize, snap: ide::Analysis, done: std::sync::mpsc::Sender<String> },
+    }
+    let alive = Arc::new(std::sync::atomic::AtomicUsize::new(0));
     let mut handles: Vec<std::thread::JoinHandle<()>> = Vec::new();
+    let mut txs: Vec<std::sync::mpsc::Sender<Job>> = Vec::new();
+    let busy: Arc<Vec<std::sync::atomic::AtomicBool>> = Arc::new((0..max_readers).map(|_| std::sync::atomic::AtomicBool::new(false)).collect());
+    for w in 0..max_readers {
+        let (tx, rx) = std::sync::mpsc::channel::<Job>();
+        txs.push(tx);
+        let (log2, exp2, q2, alive2) = (log.clone(), expected.clone(), queries.clone(), alive.clone());
+        let tail2 = tail_expected.clone();
+        let busy2 = busy.clone();
+        handles.push(std::thread::spawn(move || loop {
+            let job = rx.recv();
+            match job {
+                Err(_) => break,
+                Ok(Job::Final { v, snap, done }) => {
+                    let res = std::panic::catch_unwind(std::panic::AssertUnwindSafe(|| answers(&snap, &q2)));
+                    let f = match res {
+                        Err(_) => "panic",
+                        Ok(fin) => {
+                            if fin.iter().any(|a| a.is_none()) { "cancel" } else if fin == tail2[v] { "ok" } else { "wrong" }
+                        }
+                    };
+                    drop(snap);
+                    let _ = done.send(f.to_string());
+                }
+                Ok(Job::Read { r, v, snap, trng }) => {
+                    let mut trng = Rng(trng | 1);
+                    // readers start at a seeded query so different readers are busy in different places
+                    let start = trng.below(q2.len() as u64) as usize;
+                    for k in 0..q2.len() {
+                        let i = (start + k) % q2.len();
+                        trng.pause(scale);
+                        log2.lock().unwrap().push(format!("Q:{r}:{i}"));
+                        let args: Vec<&str> = q2[i].iter().map(|s| s.as_str()).collect();
+                        let res = std::panic::catch_unwind(std::panic::AssertUnwindSafe(|| ide_cmd::query(&snap, &args).map(canon)));
+                        let ev = match res {
+                            Err(_) => "panic".to_string(),
+                            Ok(None) => "cancel".to_string(),
+                            Ok(Some(ans)) => {
+                                if exp2[v][i].as_deref() == Some(ans.as_str()) {
+                                    "ok".to_string()
+                                } else {
+                                    match (0..exp2.len()).find(|w| exp2[*w][i].as_deref() == Some(ans.as_str())) {
+                                        Some(w) => format!("wrong={w}"),
+                                        None => "wrong=?".to_string(),
+                                    }
+                                }
+                            }
+                        };
+                        let stop = ev == "cancel" || ev == "panic";
+                        log2.lock().unwrap().push(format!("A:{r}:{i}:{ev}"));
+                        if stop {
+                            break;
+                        }
+                    }
+                    log2.lock().unwrap().push(format!("D:{r}"));
+                    drop(snap);
+                    busy2[w].store(false, std::sync::atomic::Ordering::SeqCst);
+                    alive2.fetch_sub(1, std::sync::atomic::Ordering::SeqCst);
+                }
+            }
+        }));
+    }
     let mut version = 0usize;
     let mut next_reader = 0usize;
-    let alive = Arc::new(std::sync::atomic::AtomicUsize::new(0));
-    // schedule: between consecutive applies, spawn a seeded number of readers
+    // schedule: between consecutive applies, hand a seeded number of snapshots to the pool
     while version < nver {
         let spawn_n = 1 + rng.below(max_readers as u64) as usize;
         for _ in 0..spawn_n {
@@ -100,43 +178,16 @@ pub fn run(args: &[&str]) -> Option<String> {
             let snap = host.snapshot();
             log.lock().unwrap().push(format!("S:{r}:{version}"));
             alive.fetch_add(1, std::sync::atomic::Ordering::SeqCst);
-            let (log2, exp2, q2, alive2) = (log.clone(), expected.clone(), queries.clone(), alive.clone());
-            let v = version;
-            let mut trng = Rng(rng.next() | 1);
-            handles.push(std::thread::spawn(move || {
-                let snap = snap;
-                // readers start at a seeded query so different readers are busy in different places
-                let start = trng.below(q2.len() as u64) as usize;
-                for k in 0..q2.len() {
-                    let i = (start + k) % q2.len();
-                    trng.pause(scale);
-                    log2.lock().unwrap().push(format!("Q:{r}:{i}"));
-                    let args: Vec<&str> = q2[i].iter().map(|s| s.as_str()).collect();
-                    let res = std::panic::catch_unwind(std::panic::AssertUnwindSafe(|| ide_cmd::query(&snap, &args).map(canon)));
-                    let ev = match res {
-                        Err(_) => "panic".to_string(),
-                        Ok(None) => "cancel".to_string(),
-                        Ok(Some(ans)) => {
-                            if exp2[v][i].as_deref() == Some(ans.as_str()) {
-                                "ok".to_string()
-                            } else {
-                                match (0..exp2.len()).find(|w| exp2[*w][i].as_deref() == Some(ans.as_str())) {
-                                    Some(w) => format!("wrong={w}"),
-                                    None => "wrong=?".to_string(),
-                                }
-                            }
-                        }
-                    };
-                    let stop = ev == "cancel" || ev == "panic";
-                    log2.lock().unwrap().push(format!("A:{r}:{i}:{ev}"));
-                    if stop {
-                        break;
-                    }
+            // an idle pool thread (there is one: alive < max_readers)
+            let w = loop {
+                let k = rng.below(max_readers as u64) as usize;
+                if let Some(w) = (0..max_readers).map(|d| (k + d) % max_readers).find(|w| !busy[*w].load(std::sync::atomic::Ordering::SeqCst)) {
+                    break w;
                 }
-                log2.lock().unwrap().push(format!("D:{r}"));
-                drop(snap);
-                alive2.fetch_sub(1, std::sync::atomic::Ordering::SeqCst);
-            }));
+                std::thread::yield_now();
+            };
+            busy[w].store(true, std::sync::atomic::Ordering::SeqCst);
+            let _ = txs[w].send(Job::Read { r, v: version, snap, trng: rng.next() });
             rng.pause(scale);
         }
         if version + 1 < nver {
@@ -151,19 +202,31 @@ pub fn run(args: &[&str]) -> Option<String> {
         }
         version += 1;
     }
+    while alive.load(std::sync::atomic::Ordering::SeqCst) > 0 {
+        std::thread::yield_now();
+    }
+    // after quiescence: one further revision per pool thread, in which THAT thread is the first to analyse the
+    // workspace (whatever an earlier cancelled query left on it is met here), and it must see that revision
+    let last = nver - 1;
+    let mut finals: Vec<String> = Vec::new();
+    for w in 0..max_readers {
+        let k = w % 2;
+        let mut ch = Change::default();
+        ch.change_file(FileId(file), tail_texts[k].as_str().into());
+        host.apply_change(ch);
+        let (dtx, drx) = std::sync::mpsc::channel();
+        let _ = txs[w].send(Job::Final { v: k, snap: host.snapshot(), done: dtx });
+        finals.push(drx.recv_timeout(Duration::from_secs(120)).unwrap_or_else(|_| "timeout".into()));
+    }
+    let final_k = (max_readers + 1) % 2; // = (max_readers - 1) % 2: the text of the last round
+    drop(txs);
     let mut panicked = false;
     for h in handles {
         panicked |= h.join().is_err();
     }
     let fin = answers(&host.snapshot(), &queries);
-    let last = nver - 1;
-    let f = if fin.iter().any(|a| a.is_none()) {
-        "cancel"
-    } else if fin == expected[last] {
-        "ok"
-    } else {
-        "wrong"
-    };
+    finals.push(if fin.iter().any(|a| a.is_none()) { "cancel".into() } else if fin == tail_expected[final_k] { "ok".into() } else { "wrong".into() });
+    let f = finals.iter().find(|x| *x != "ok").cloned().unwrap_or_else(|| "ok".to_string());
     let mut out = log.lock().unwrap().clone();
     out.push(format!("F:{last}:{f}"));
     out.push(format!("T:{cold}"));
